@@ -105,14 +105,12 @@ class Bench:
         fiber = next(n for n in net.nodes() if isinstance(n, Fiber) and type(n) is Fiber)
         assert isinstance(multi, Multiband_amplifier) and isinstance(fixed, Edfa)
 
-        def bands(el):
-            return [[pu.mhz(b['f_min']), pu.mhz(b['f_max'])] for b in el.params.bands]
+        bands = pu.bands_of                 # from the equipment parameters of the (member) amplifiers
         si = self.eq['SI']['default']
         wide = by['east edfa in Site_L to Site_A']
         real = dict(multi=bands(multi), test_fixed_gain=bands(fixed), std_low_gain_bis=bands(low),
                     default=[pu.mhz(si.f_min), pu.mhz(si.f_max)], wide_band=bands(wide))
-        if real != MODEL_BANDS or bands(multi2) != MODEL_BANDS['multi'] or \
-                [list(pu.mhz(a.params.bands[0][k]) for k in ('f_min', 'f_max')) for a in multi.amplifiers.values()] != MODEL_BANDS['multi']:
+        if real != MODEL_BANDS or bands(multi2) != MODEL_BANDS['multi']:
             raise Machinery(f'band constants of MC_ChannelSet differ from the shipped library: {real}')
         self.paths = {1: [fixed, fiber, low], 2: [multi, fiber, multi2], 3: [multi, fiber, low], 4: [fiber],
                       5: [wide, fiber, multi], 6: [multi, fiber, wide]}
@@ -168,7 +166,8 @@ def replay_walk(bench, js, chk, through_elements):
     for pos, el in enumerate(path):
         if type(el).__name__ == 'Multiband_amplifier':
             # explicit band split and merge on the spectrum as it stands
-            subs = [demuxed_spectral_information(si, b) for b in el.params.bands]
+            subs = [demuxed_spectral_information(si, {'f_min': a.params.f_min, 'f_max': a.params.f_max})
+                    for a in el.amplifiers.values()]
             subs = [s for s in subs if s is not None]
             merged = project(muxed_spectral_information(subs))
             if merged != js['kept']:
@@ -178,7 +177,7 @@ def replay_walk(bench, js, chk, through_elements):
             out = el(si)
         except Exception as e:                                        # noqa
             one = any(sum(1 for c in js['kept'] if c['f'] - c['w'] // 2 >= lo and c['f'] + c['w'] // 2 <= hi) == 1
-                      for lo, hi in [[pu.mhz(b['f_min']), pu.mhz(b['f_max'])] for b in el.params.bands])
+                      for lo, hi in (pu.bands_of(el) if hasattr(el.params, 'bands') else []))
             chk.violation(crossing_failure(el, e) + ('|one-carrier-in-an-amplifier-band' if one else '|other'),
                           dict(input=inp, path=pid, element=el.uid, position=pos + 1, kept=js['kept'],
                                exception=f'{type(e).__name__}: {e}',
